@@ -284,7 +284,7 @@ pub fn vpl_sources(mem: &[MemSource]) -> Vec<(String, String, Vec<u8>)> {
 
 pub fn run(ctx: Arc<Ctx>) {
 	ctx.rule(
-		"sources: 5 container readers x 6 representative tile sets written by the repository's writers; TilesConvertReader x 4 flag combinations x {unrestricted, restricted} over a MemSource and a versatiles file; \
+		"sources: 5 container readers x 6 representative tile sets written by the repository's writers; TilesConvertReader x 4 flag combinations x {unrestricted, restricted} over a MemSource and a versatiles file, and recompressing (gzip -> gzip/brotli/none, with and without force); \
 		 pipeline operations and nestings over MemSources, from_debug and a real versatiles file. boxes: all boxes at z<=2 (quick) / z<=3 (thorough), every box with corners from {0,255,256,511,cov_min(-1),cov_max(+1),max} at the sets' high zoom levels, all empty encodings at z 0,1,7,8,9,31. \
 		 oracle: multiset of streamed (coord, bytes) = lookups over the box. non-trivial = (source, box) pairs whose expected result is non-empty",
 	);
@@ -328,6 +328,30 @@ pub fn run(ctx: Arc<Ctx>) {
 		t.extend(tilesets::family_dense(9, 250, 254, 10, 4, 12));
 		t
 	};
+	// (target compression, force flag): the lookup path recompresses blob by blob, the stream path through the
+	// parallel converter stage
+	for (tc, force) in [(Some(TileCompression::Gzip), false), (Some(TileCompression::Brotli), true), (Some(TileCompression::Uncompressed), true)] {
+		let inner = Box::new(MemSource::new("mem", conv_tiles.iter().map(|(k, v)| (*k, crate::codec::gzip(v))).collect(), TileFormat::BIN, TileCompression::Gzip));
+		let mut cp = TilesConverterParameters::new_default();
+		cp.tile_compression = tc;
+		cp.force_recompress = force;
+		cp.flip_y = force;
+		match TilesConvertReader::new_from_reader(inner, cp) {
+			Ok(r) => sources.push((
+				Source {
+					class: "converting reader (recompressing)".into(),
+					name: format!("converting reader gzip -> {tc:?} force={force}"),
+					src: AnySrc::Reader(Box::new(r)),
+					universe: universe_of(&[&conv_tiles]),
+					dense_everywhere: false,
+					area_cost: true,
+					build: json!({"kind": "converter-recompress", "target": format!("{tc:?}"), "force": force}),
+				},
+				vec![3, 9],
+			)),
+			Err(e) => ctx.outcome(&format!("setup: converter failed: {e}")),
+		}
+	}
 	for over_file in [false, true] {
 		for flags in 0..4u8 {
 			for restricted in [false, true] {
